@@ -28,9 +28,9 @@ def is_err(sel):
     return len(sel) == 1 and sel[0][0] == "err"
 
 
-def judge(ctx, case, sel, data, alg, observed, q1, q2, unamb, where):
+def judge(ctx, case, sel, data, alg, observed, q1, q2, unamb, where, qi=False):
     """property-layer acceptance for one observation; returns True when it was a checked (unambiguous) case"""
-    cls = "q1" if q1 else ("q2" if q2 else "plain")
+    cls = "q1" if q1 else ("q2" if q2 else ("qi" if qi else "plain"))
     if observed.startswith("Panic"):
         ctx.violation("panic:%s" % where, "range hashing panicked: %s" % observed, case)
         return True
@@ -69,10 +69,10 @@ def run(ctx):
         raise ToolError("vector export too small: %d" % len(vecs))
     if ctx.quick:
         # boundary subset + seeded sample
-        keep = [v for v in vecs if v["q1"] or v["q2"] or len(v["rs"]) <= 1]
-        rest = [v for v in vecs if not (v["q1"] or v["q2"] or len(v["rs"]) <= 1)]
+        keep = [v for v in vecs if len(v["rs"]) <= 1]
+        rest = [v for v in vecs if len(v["rs"]) > 1]
         ctx.rng.shuffle(rest)
-        vecs = keep + rest[:4000]
+        vecs = keep + rest[:6000]
     vin = ctx.path("vectors.ndjson")
     write_ndjson(vin, vecs)
     algs = "sha256" if ctx.quick else "sha256,sha384,sha512"
@@ -89,7 +89,7 @@ def run(ctx):
         for res in o["results"]:
             evals += 1
             judge(ctx, {"len": v["len"], "excl": v["excl"], "rs": v["rs"], "chunk": res["chunk"], "alg": res["alg"]},
-                  v["sel"], data, res["alg"], res["r"], v["q1"], v["q2"], True, "hook")
+                  v["sel"], data, res["alg"], res["r"], v["q1"], v["q2"], True, "hook", v["qi"])
             if not res["grammar_ok"]:
                 ctx.violation("progress-grammar", "hash progress ticks not positive/increasing/within total",
                               {"vector": v, "chunk": res["chunk"]})
@@ -104,13 +104,13 @@ def run(ctx):
         x = int(x)
         return x if x < HUGE else HUGE
     slim = [{"len": x["len"], "excl": x["excl"],
-             "rs": [{"start": clamp(q["start"]), "length": clamp(q["length"]), "marker": q["marker"]} for q in x["rs"]]} for x in recs]
+             "rs": [{"start": clamp(q["start"]), "length": clamp(q["length"]), "marker": q["marker"], "moff": clamp(q["moff"])} for q in x["rs"]]} for x in recs]
     verdicts = judge_with_tlc(ctx, "Oracle_RangeHash", "Oracle_RangeHash.cfg", slim, chunk=10000, timeout=1200)
     checked = 0
     for x, v in zip(recs, verdicts):
         data = content(x["cseed"], x["len"])
         if judge(ctx, {k: x[k] for k in ("len", "cseed", "excl", "rs", "alg")}, v["sel"], data, x["alg"], x["r"],
-                 v["q1"], v["q2"], v["unamb"], "public"):
+                 v["q1"], v["q2"], v["unamb"], "public", v["qi"]):
             checked += 1
     ctx.cov["traces_validated_against_impl"] += checked
     ctx.cov["evaluations"] = evals + len(recs)
